@@ -3,8 +3,9 @@
          -> "B" balanced | "X <index> <reason> <p> <o> <n> <r>" first offending event | "K <p>:<size> ..." leaked blocks
      M <fuel> <oracle: string of 0/1 or -> <program s-expression>
          compile the skeleton with the extracted Own.compile, run it with the oracle
-         -> "N" does not compile | "F" no normal termination within the fuel
-          | "<verdict as above> # p o n r ; ..."   the model's ledger and the checker's verdict on it
+         -> "N" does not compile | "S<0|1> F" no normal termination within the fuel
+          | "S<0|1> <verdict as above> # p o n r ; ..."   S1: accepted by the extracted static discipline (OwnCheck.program_ok);
+            then the model's ledger and the checker's verdict on it
    Skeleton syntax (see checks/c05.py, class Sk):
      expr  P | (V x) | (Q x k) | (L n) | (U1 e) | (U2 a b) | (D e n) | (C a b) | (B n e..) | (F f arg..) | (X n|- arg..) | (A a b) | (I c a b)
      arg   (v e) | (r x)
@@ -125,8 +126,9 @@ let () =
         (match compile p with
          | None -> print_endline "N"
          | Some _ ->
+           let ok = if program_ok p then "S1 " else "S0 " in   (* verdict of the proved static discipline *)
            (match run_program (nat fuel) oracle p with
-            | None -> print_endline "F"
-            | Some l -> print_endline (show_verdict (check_ledger l) ^ " # " ^ show_ledger l)))
+            | None -> print_endline (ok ^ "F")
+            | Some l -> print_endline (ok ^ show_verdict (check_ledger l) ^ " # " ^ show_ledger l)))
       with Failure m -> print_endline ("? " ^ m))
     | _ -> print_endline "?") (read_lines stdin)
